@@ -55,8 +55,9 @@ func newGen(p *Program, intMode bool) *Gen {
 	g.decl("dt:Iface", "(declare-datatype Iface ((mk_iface (i_tag Int) (i_val Int))))")
 	g.decl("const:str_empty", "(declare-const str_empty Str)")
 	g.defs = append(g.defs, "(= (slen str_empty) "+g.ilit(0)+")")
-	// lengths are non-negative ints
-	g.defs = append(g.defs, "(forall ((s Str)) (! "+g.ile(g.ilit(0), "(slen s)")+" :pattern ((slen s))))")
+	// NB: no global "slen >= 0" axiom: definitions must stay conservative (a string built from an
+	// ill-formed slice on a path that panics must not make the whole context inconsistent);
+	// non-negativity is a type fact assumed for parameters, loads and call results.
 	return g
 }
 
